@@ -161,6 +161,15 @@ func endToEnd(c *mon.Ctx, r *gen.Rand) {
 			c.Fail("e2e:setopcr", "SetOPCR failed: "+err.Error(), wit{Op: "SetOPCR", Value: o})
 		}
 	}
+	if r.Chance(3) {
+		// enabling a field that is already enabled changes nothing
+		if withP {
+			af.SetHasPCR(true)
+		}
+		if withO {
+			af.SetHasOPCR(true)
+		}
+	}
 	if withP {
 		if g, err := af.PCR(); err != nil || g != v {
 			c.Fail("e2e:pcr", fmt.Sprintf("PCR() after SetPCR(%d) = %d, %v", v, g, err), wit{Op: "PCR", Value: v, Got: fmt.Sprint(g)})
@@ -182,7 +191,21 @@ func endToEnd(c *mon.Ctx, r *gen.Rand) {
 	}
 	// PTS / DTS through a PES header
 	h := ref.PES{StreamID: 0xe0, Flags1: byte(r.Intn(64)), Flags2Low6: 0, PTSDTS: []byte{2, 3}[r.Intn(2)], PTS: r.U33(), DTS: r.U33(), Extra: r.Bytes(r.Intn(4)), Payload: r.Bytes(1 + r.Intn(8))}
+	if r.Chance(3) {
+		h.Payload = r.Bytes(r.Intn(6))
+	}
 	hb, _ := h.Bytes()
+	if r.Bool() {
+		hb[4], hb[5] = byte((len(hb)-6)>>8), byte(len(hb)-6) // PES_packet_length = bytes that follow the field
+	}
+	if r.Chance(3) {
+		// marker bits and the 4-bit prefixes are not value bits: clearing them must not matter
+		for _, off := range []int{9, 11, 13, 14, 16, 18} {
+			if off < len(hb)-len(h.Payload) && (h.PTSDTS == 3 || off < 14) && r.Bool() {
+				hb[off] &^= 0x01
+			}
+		}
+	}
 	ph, err := pes.NewPESHeader(hb)
 	c.Eval(1)
 	if err != nil {
